@@ -118,6 +118,39 @@ class SID(str):
     __slots__ = ()
 
 
+class LtRec(Rec):
+    """A system class that defines an ordering of its own (alphabetical by id, so that users can sorted() their systems):
+    the scheduler's order is priority and registration, whatever the objects say about themselves."""
+
+    def __lt__(self, other):
+        return str(self.id) < str(other.id)
+
+    def __gt__(self, other):
+        return str(self.id) > str(other.id)
+
+    def __le__(self, other):
+        return str(self.id) <= str(other.id)
+
+    def __ge__(self, other):
+        return str(self.id) >= str(other.id)
+
+
+class _ExecMixin:
+    """A plain (non-System) mix-in that brings the execute() body along."""
+
+    def execute(self):
+        self.world.on_execute(self)
+
+
+class MixRec(_ExecMixin, System):
+    """A recording system whose execute() is inherited from a plain mix-in class, not written in a System subclass body."""
+
+    def __init__(self, spec, model, world):
+        spec = spec_defaults(spec)
+        System.__init__(self, spec["id"], model, priority=spec["prio"], frequency=spec["freq"], start=spec["start"], end=spec["end"])
+        self.world = world
+
+
 class LenRec(Rec):
     """A falsy system: what a System subclass that defines __len__ (over its own records, say) is while it holds nothing.
     Presence in the scheduler must never be decided by an object's truth value."""
@@ -141,6 +174,8 @@ def gen_flavour(rng):
         return {"value_eq": False, "falsy": rng.choice(["len", "bool"]), "returns": ret}
     if r < 0.34:
         return {"value_eq": False, "syskind": rng.choice(["collector", "file", "file"]), "returns": None}
+    if r < 0.44:
+        return {"value_eq": False, "syskind": rng.choice(["own_order", "mixin_execute"]), "returns": None}
     return {"value_eq": False, "returns": ret}
 
 
@@ -158,8 +193,8 @@ def rec_class(sc, ctx=None):
         return LenRec if sc["falsy"] == "len" else BoolRec
     if sc.get("syskind"):
         if ctx is not None:
-            ctx.probe("systems_that_are_bundled_collectors")
-        return RecFileSys if sc["syskind"] == "file" else RecCollectorSys
+            ctx.probe("systems_that_are_bundled_collectors" if sc["syskind"] in ("file", "collector") else "systems_of_kind_" + sc["syskind"])
+        return {"file": RecFileSys, "collector": RecCollectorSys, "own_order": LtRec, "mixin_execute": MixRec}[sc["syskind"]]
     return Rec
 
 
